@@ -5,6 +5,8 @@ import AwModel.Query.Interp
 `Expr` is the grammar the property C11 speaks about; `denote` is the meaning of a program text:
 literals denote themselves, a variable its most recent assignment, a call applies the named
 builtin (through the registry's call protocol) to the values of all its arguments in written order.
+(Error outcomes carry the same message texts as the interpreter model so that the C11 theorems can
+be stated as plain equalities.)
 -/
 namespace Aw.Query
 
@@ -27,10 +29,10 @@ def denote (reg : List Entry) (apply : Apply) (ns : Ns) : Expr → Except Err Va
   | .var name =>
     match ns.get? name with
     | some v => .ok v
-    | none => .error (.interp "undefined variable")
+    | none => .error (.interp "Tried to reference variable which is not defined")
   | .call f args =>
     match lookupEntry reg f with
-    | none => .error (.interp "unknown function")
+    | none => .error (.interp "Tried to call function which doesn't exist")
     | some e => (denoteList reg apply ns args).bind (callBuiltin apply e)
   | .list xs => (denoteList reg apply ns xs).map .list
   | .dict kvs => (denoteDict reg apply ns kvs).map .dict
@@ -54,6 +56,6 @@ def denoteProg (reg : List Entry) (apply : Apply) (env : Ns) (p : Prog) : Except
   (denoteStmts reg apply p (baseNs ++ env)).bind fun ns =>
     match ns.get? returnName with
     | some v => .ok v
-    | none => .error (.parse "no RETURN")
+    | none => .error (.parse "Query doesn't assign the RETURN variable, nothing to respond")
 
 end Aw.Query
